@@ -155,12 +155,11 @@ pub(crate) fn rem(lhs: &Value, rhs: &Value) -> TeraResult<Value> {
             }
 
             let val = match (left, right) {
-                (Number::Integer(a), Number::Integer(b)) => match a.checked_rem_euclid(b) {
-                    Some(val) => Value::from(val),
-                    None => {
-                        return Err(Error::message(format!("Unable to perform {lhs} % {rhs}")));
-                    }
-                },
+                // `b` is not 0 so the only failure is `i128::MIN % -1`, which overflows in the
+                // intermediate division but is mathematically 0
+                (Number::Integer(a), Number::Integer(b)) => {
+                    Value::from(a.checked_rem_euclid(b).unwrap_or(0))
+                }
                 (Number::Float(a), Number::Float(b)) => Value::from(a.rem_euclid(b)),
                 _ => unreachable!(),
             };
